@@ -153,8 +153,11 @@ size_t SubjectRouter::Node::notify(RoutingLevelView levelView, Args &&...args) {
         if (nextLevel.isRegex()) {
             size_t notifyCount = 0;
 
+            // keep the caller's argument types (deducing them again from the lvalues
+            // `args` would address the subjects as Subject<Args&...>) and give
+            // every child its own copy of by-value arguments
             for (auto & [name, node] : m_children)
-                notifyCount += node.notify(nextLevel, args...);
+                notifyCount += node.template notify<Args...>(nextLevel, static_cast<Args>(args)...);
 
             return notifyCount;
         } else {
